@@ -52,7 +52,7 @@ class C14(scen.PairProp):
                   "non-trivial = Wheatley was held up")
 
     def cases(self, rng, tier):
-        n = 40 if tier == "quick" else 300
+        n = 120 if tier == "quick" else 900
         for i in range(n):
             N = rng.choice([4, 6, 8])
             humans = sorted(rng.sample(range(2, N + 1), rng.randint(1, N - 2)))
